@@ -141,19 +141,8 @@ def collected_form(chk, prog, fn):
     expect(chk, "R-ERR", FN, got, want, fn.where(), "header error, first cut error, or Message::new(header, cuts in order)", key="pre-loop-returns")
 
 
-def run(chk, tier):
-    prog, info = common.program("all")
-    common.note_extraction(chk, info, prog)
-    common.vacuity(chk, ['VN-bits', 'R-TABLE'])
-    chk.explanation = ("R-LAYOUT on the 11-halfword header and the 23-halfword cut block; the decode loop is summarised by value numbering (bound "
-                       "0..zext(number_of_elevation_cuts), one push of this iteration's decoded block per iteration, every failure an error return); each "
-                       "flag/sub-field accessor is reduced to a per-bit provenance vector and compared with the documented bit positions; each scaled "
-                       "accessor is reduced to a weighted-bit sum (exact dyadic weights) and compared with the ICD encoding; coded fields by table.")
-    chk.trust("serde_derive/bincode encoding; uom Quantity::new is a tagged value; f64 accumulation of the dyadic weights is exact (checked: < 53 significant bits)")
-    layout.check_struct(chk, prog, H)
-    layout.check_struct(chk, prog, E)
-    ev = sym.Evaluator(prog)
-
+def decoder(chk, prog):
+    """the VCP body decoder: loop bound, one push per cut, failures returned, no count 0..=51 turned away, frame-bounded"""
     # ---- decode loop
     fn = prog.fn(FN)
     if fn is None:
@@ -219,6 +208,23 @@ def run(chk, tier):
     # ---- the decoder is run on the frame, not on the stream: a cut count that does not fit the 2404-byte frame body must
     #      run out of bytes (an error), it must not be satisfied from the messages that follow
     frame_bound(chk, prog)
+
+
+
+def run(chk, tier):
+    prog, info = common.program("all")
+    common.note_extraction(chk, info, prog)
+    common.vacuity(chk, ['VN-bits', 'R-TABLE'])
+    chk.explanation = ("R-LAYOUT on the 11-halfword header and the 23-halfword cut block; the decode loop is summarised by value numbering (bound "
+                       "0..zext(number_of_elevation_cuts), one push of this iteration's decoded block per iteration, every failure an error return); each "
+                       "flag/sub-field accessor is reduced to a per-bit provenance vector and compared with the documented bit positions; each scaled "
+                       "accessor is reduced to a weighted-bit sum (exact dyadic weights) and compared with the ICD encoding; coded fields by table.")
+    chk.trust("serde_derive/bincode encoding; uom Quantity::new is a tagged value; f64 accumulation of the dyadic weights is exact (checked: < 53 significant bits)")
+    layout.check_struct(chk, prog, H)
+    layout.check_struct(chk, prog, E)
+    ev = sym.Evaluator(prog)
+
+    decoder(chk, prog)
 
     # ---- bit fields
     check_bits(chk, ev, H, HEADER_BITS, "header bit-field accessors")
